@@ -11,6 +11,11 @@ SPEC = {
         # (agent-wire) wire level: whole server over TCP with gluon.WithIMAPLimits, two sessions + dummy connector, a DB
         # interposer forcing check1 check2 insert1 insert2; histories near the limits; the observed world before/after
         # every step is judged by judge-c17-wire (Driver/DJudgeLimits.lean, on the machine of Model/Limits.lean).
+        # COPY / MOVE message sets overlap the destination's content (none / some / all already there, destination =
+        # source, the same COPY repeated: model event replaceTx k n), tiny maxUID / maxMessages, scripted approaches
+        # (copy the same set into one mailbox until refused, then move it there); after every command answered NO
+        # every mailbox (content by marker, UIDs, UIDNEXT) is compared with the state before it, once right after the
+        # reply and once after the connector's echo.
         # Directed histories: corpus/C17/*.limits
         {"name": "c17limits", "quick_args": ["-n", "20", "-steps", "25"],
          "thorough_args": ["-n", "400", "-steps", "40"], "timeout": 2400},
@@ -18,14 +23,16 @@ SPEC = {
     "trusted_base": [
         "Lean 4.33.0 kernel; axioms limited to propext, Classical.choice, Quot.sound (audited per theorem)",
         "hand-written model GluonModel/Model/Limits.lean of package limits (int64 wrap-around arithmetic as written), tied to the real package by the `limits` correspondence dialect (differential testing on boundary values, not proof)",
-        "the abstract check-then-insert machine of Model/Limits.lean (create with implicit parents, in-transaction adds, out-of-transaction check + insert per session) is a hand abstraction of State.Create / AddMessagesToMailbox / MoveMessagesFromMailbox / Mailbox.AppendRegular; which caller has which shape is read from the source by the facts translator harness/facts_limits.go (go/ast) and pinned by theorem limit_sites_today",
+        "the abstract check-then-insert machine of Model/Limits.lean (create with implicit parents, in-transaction adds, out-of-transaction check + insert per session) is a hand abstraction of State.Create / AddMessagesToMailbox / MoveMessagesFromMailbox / Mailbox.AppendRegular; which caller has which shape is read from the source by the facts translator harness/facts_limits.go (go/ast) and pinned by theorem limit_sites_today; which limits value and which quantity every Check* is applied to, which limits value the shared insertion helpers are handed, and that Mailbox.Copy / Mailbox.Move open one write transaction, by theorem limit_quantities_today (unknown shapes fail the decidable obligation)",
+        "the wire judge identifies a message across mailboxes by its RFC822.SIZE (the harness gives every message it creates a size of its own; the two messages of a RACE step share one and are flagged, COPY / MOVE sets for which that makes the overlap with the destination ambiguous are judged for invariant and clean refusal only)",
     ],
     "assumptions": [
         "limits_invariant_partial needs NoImplicitParents (State.Create checks the mailbox count once and then creates all missing superiors: create_parents_witness, confirmed on the real server: limit 4, three mailboxes, CREATE p/q/r/s -> 7) and ChecksInsideTx (Mailbox.AppendRegular checks in a read transaction before the write transaction: append_race_witness, confirmed on the real server: message limit 2, one message present, two sessions APPEND at once -> both OK, 3 messages; reproducer /verif/tmp/agent-c04-repro)",
         "a limit-refused APPEND is answered NO but Mailbox.Append then stores the message in the recovery mailbox, which no limit check covers (observed on the real server: 4 refused APPENDs -> `Recovered Messages` holds 4 with message limit 2); outside the abstract machine",
         "Rename (missing superiors), renameInbox (new mailbox) and the recovery mailbox insert without any limit check (limit_sites_today item 4); they are outside the abstract machine's event alphabet",
         "int is 64 bits (the dialect refuses to run otherwise); counts and slice lengths are non-negative (check_sound_needs_sign shows the check is unsound for two negative arguments)",
-        "all-or-nothing of a refused multi-message operation is transaction rollback (C08 database model) and is observed at wire level by the lead's oracle; not a theorem here",
+        "all-or-nothing of a refused multi-message operation is transaction rollback (C08 database model): in the model a refused step is the identity (replace_refused_unchanged), the source is tied to it by the one-write-transaction fact (limit_quantities_today item 5) and by the wire oracle, which compares every mailbox before and after every refused command",
+        "a COPY / MOVE answered NO has already been announced to the connector; the dummy connector's echo then carries it out piecemeal, and from then on the connector's idea of the mailboxes differs from gluon's (known finding connector-echo-after-refusal; echo effects after an accepted command are attributed to it only in histories with an earlier refused COPY / MOVE, otherwise they are reported as cause=connector-echo-after-accepted)",
     ],
-    "explanation": "Lean theorems: each Check* that passes implies the true (unwrapped) sum is within the maximum, and fitting operations pass; the limits invariant holds along every history under NoImplicitParents and ChecksInsideTx, with decide-checked witnesses that each hypothesis is needed; a regenerated table of all Check*/insert call sites states which callers satisfy the hypotheses today. The limits package itself is differential-tested against the model on boundary values.",
+    "explanation": "Lean theorems: each Check* that passes implies the true (unwrapped) sum is within the maximum, and fitting operations pass; the limits invariant holds along every history under NoImplicitParents and ChecksInsideTx, with decide-checked witnesses that each hypothesis is needed; COPY / MOVE onto a destination that already holds k of the n messages (replaceTx k n) consumes n UIDs, keeps the limits, is accepted when it fits and is the identity when refused, with a witness that a UID check discounting the duplicates would be unsound; regenerated tables of all Check*/insert call sites state which callers satisfy the hypotheses today, that every check is made on the configured limits with the full length of the inserted list, and that COPY / MOVE are one write transaction. The limits package itself is differential-tested against the model on boundary values.",
 }
